@@ -54,6 +54,10 @@ def judge(ctx, c, v, b, r, tag=""):
         ctx.dropped["cmd-" + r["st"]] = ctx.dropped.get("cmd-" + r["st"], 0) + 1
         if r["st"] == "unsupported" and len(ctx.notes.setdefault("unsupported_lines", [])) < 10:
             ctx.notes["unsupported_lines"] += b.get("unsupported", [])[:2]
+        # only the world builtins (files, commands, input) lie outside the cmd.exe model: a program without them whose script the model cannot
+        # execute means that the converter emits something new, or that control reaches a line in a way the model does not know (round 9)
+        if r["st"] == "unsupported" and not re.search(r"@\w|\b(?:write|read|exists|input)\(", c.get("src", "")):
+            ctx.notes.setdefault("blind_for", []).append(c["id"])
         return False
     if not r["ok"]:
         s = "under cmd.exe's rules the Batch script ends with status %s (%s): stdout %s; status expected %d observed %s" % (
@@ -69,6 +73,9 @@ def check_blind(ctx, n):
     """a script line outside the modelled fragment makes the model blind for that program: a few are expected (builtins), many mean that the
     converter emits something the model does not know - not a verdict either way"""
     from vlib import Infra
+    if ctx.notes.get("blind_for") and not ctx.violations:
+        raise Infra("the cmd.exe model cannot execute the Batch script of %d program(s) that use no file, command or input builtin (e.g. %s; lines %r): "
+                    "extend harness/batparse.go and spec/CmdExe.tla - not a verdict" % (len(ctx.notes["blind_for"]), ctx.notes["blind_for"][:3], ctx.notes.get("unsupported_lines", [])[:2]))
     blind = ctx.dropped.get("cmd-unsupported", 0)
     if blind > max(25, n // 20):
         raise Infra("%d of %d Batch scripts contain lines outside the cmd.exe model (e.g. %r): extend harness/batparse.go and spec/CmdExe.tla"
